@@ -1,18 +1,22 @@
 """C07 — no heap allocation in steady state (partial by nature: see DESIGN §6/C07).
 What is logic is proved in Coq (coq/props/C07.v: storage of both ring buffers never changes size under
-any history; a growable vector driven by a fixed push/pop/clear script stops reallocating after the
-first run — the processor's steady state).  Allocator behaviour itself cannot be exhibited by a Coq
-model; it is OBSERVED: a counting GlobalAlloc around the allocation-free API surface (67 scenarios,
-each constructed, warmed up once, then run K more times with varied inputs)."""
+any history; the capacity trace of the modelled dasp_graph::process — the C09 stack machine with every
+stack/inputs/bit-set operation accounted on (len, cap) vectors — reaches a steady state after one call).
+Allocator behaviour itself cannot be exhibited by a Coq model; it is OBSERVED: a counting GlobalAlloc
+around the allocation-free API surface (67 scenarios, each constructed, warmed up once, then run K more
+times with varied inputs).  The capacity model of the graph processor is additionally TIED to the crate:
+its executable definitions (Alloc/CapsRun.v) are evaluated by coqc on build-and-process scripts and the
+predicted stack/inputs capacities and the heap traffic of every call are compared with
+Processor::verif_capacities() and the counting allocator."""
 import json, os
 import framework as F
 
 PROP = "C07"
 META = dict(
     category="other",
-    technique="Coq size/capacity theorems (ring-buffer storage constant, vector steady state) + counting-allocator observation of the API surface",
-    text="Coq proves the logical half (12 theorems): every history of Bounded/Fixed operations leaves the backing storage length unchanged (corollary of the C06 refinement); the bus backlog length equals the maximum lag over live outputs and, under lock-step pulling with drops/re-attachments between rounds, is empty at every round boundary and never exceeds one frame (corollaries of the C13 model); the push/pop/clear scripts that one Processor::process call applies to its DFS stack and inputs vectors are a function of (graph, output node) only and faithful to the C09 traversal model, so after ONE call every further call on the same graph reallocates neither vector (any multigraph, no size bound), with high-water marks 1+|V|+|E| and max in-degree, and with_capacity covering them never reallocates. That an operation performs no allocation is a runtime fact no Coq model can exhibit; it is observed with a counting GlobalAlloc over 67 scenarios covering sample/frame/slice/ring-buffer/peak/RMS/envelope/interpolation/window/signal sources and adaptors/fork/buffered/converter/windower/graph processing with stock nodes, with the documented exceptions (bus, by_rc creation, boxed conversions) checked for boundedness/balance instead. This is labelled 'other', not proof.",
-    note="Trusted: Coq kernel for the capacity theorems; for the allocator half the harness's scenario list is the coverage: an allocation reachable only through an API call or input class the scenarios do not exercise is missed. petgraph/std Vec growth is modelled only as (len, cap).",
+    technique="Coq size/capacity theorems (ring-buffer storage constant, capacity trace of the modelled graph processor) + coqc-evaluated capacity model vs Processor::verif_capacities() + counting-allocator observation of the API surface",
+    text="Coq proves the logical half (23 theorems): every history of Bounded/Fixed operations leaves the backing storage length unchanged (corollary of the C06 refinement); the bus backlog length equals the maximum lag over live outputs and, under lock-step pulling with drops/re-attachments between rounds, is empty at every round boundary and never exceeds one frame (corollaries of the C13 model); the push/pop/clear scripts that one Processor::process call applies to its DFS stack and inputs vectors are a function of (graph, output node) only and faithful to the C09 traversal model, so after ONE call every further call on the same graph reallocates neither vector (any multigraph, no size bound), with high-water marks 1+|E| (tight) and max in-degree, and with_capacity covering them never reallocates; the same on the capacity trace of the modelled process itself (the C09 traversal with the DFS stack, the inputs list and the FixedBitSet block vectors as (len, cap) pairs): a second call from the same node on any graph of the same shape changes no capacity, a call from any node of any graph whose needs are within what is reserved changes none either, while the reading 'from any node of a graph of that size' is refuted by a witness (a first call from a shallow node, then one from a deep node grows the stack) that the check reproduces on the crate through Processor::verif_capacities(). The capacity model is tied to the crate by running it inside coqc on random build-and-process scripts (Graph and StableGraph, removals, growth between calls, one processor per script) and comparing, after every call, both capacities and the number of allocations+reallocations and of frees of that call. That an operation performs no allocation is a runtime fact no Coq model can exhibit; it is observed with a counting GlobalAlloc over 67 scenarios covering sample/frame/slice/ring-buffer/peak/RMS/envelope/interpolation/window/signal sources and adaptors/fork/buffered/converter/windower/graph processing with stock nodes, with the documented exceptions (bus, by_rc creation, boxed conversions) checked for boundedness/balance instead. This is labelled 'other', not proof.",
+    note="Trusted: Coq kernel for the capacity theorems; for the allocator half the harness's scenario list is the coverage: an allocation reachable only through an API call or input class the scenarios do not exercise is missed. petgraph/std Vec growth is modelled as (len, cap) with std's amortised rule cap' = max(4, 2*cap, needed), validated by the capacity correspondence only.",
     design="6/C07")
 
 ZERO = ["sample_conv", "sample_amp", "frame_ops2", "frame_ops32", "slice_views", "slice_ops",
@@ -26,6 +30,300 @@ ZERO = ["sample_conv", "sample_amp", "frame_ops2", "frame_ops32", "slice_views",
         "graph_stable", "graph_nested",
         "ring_bounded_index", "ring_bounded_raw", "frame_channels_mut", "interp_direct", "lift", "conv_source_access",
         "rectifier_structs", "window_direct", "slice_trait_forms", "graph_node_shapes"]
+
+
+# ---------------------------------------------------------------------------
+# capacity correspondence: Alloc/CapsRun.v (the capacity trace of the modelled process, evaluated by
+# coqc) against Processor::verif_capacities() and the counting allocator (harness mode `caps`)
+HEADER = "From Dasp Require Import Alloc.CapsRun."
+CHECK = "check"
+
+
+def caps_build(item, ops=None):
+    it = dict(item)
+    if ops is not None:
+        it["ops"] = ops
+    it["line"] = f"caps {'S' if it['stable'] else 'G'} {it['cap0']} ; " + " , ".join(" ".join(str(t) for t in o) for o in it["ops"])
+    z = F.zlit
+    cop = {"N": lambda a: "CN", "E": lambda a: f"CE {z(a[0])} {z(a[1])}", "R": lambda a: f"CR {z(a[0])}", "P": lambda a: f"CP {z(a[0])}"}
+    it["coq"] = f"({z(it['cap0'])}, [" + "; ".join(cop[o[0]](o[1:]) for o in it["ops"]) + "])"
+    return it
+
+
+class Shape:
+    """python mirror of the container bookkeeping, used only to GENERATE valid scripts (never as an oracle)"""
+
+    def __init__(self):
+        self.live, self.free, self.edges = [], [], []
+
+    def add_node(self):
+        if self.free:
+            i = self.free.pop(0)
+            self.live[i] = True
+        else:
+            i = len(self.live)
+            self.live.append(True)
+        return i
+
+    def remove(self, a):
+        self.live[a] = False
+        self.free.insert(0, a)
+        self.edges = [e for e in self.edges if a not in e]
+
+    def nodes(self):
+        return [i for i, l in enumerate(self.live) if l]
+
+
+def caps_valid(it):
+    sh = Shape()
+    for o in it["ops"]:
+        if o[0] == "N":
+            sh.add_node()
+        elif o[0] == "E":
+            if not (o[1] < len(sh.live) and o[2] < len(sh.live) and sh.live[o[1]] and sh.live[o[2]]):
+                return False
+            sh.edges.append((o[1], o[2]))
+        elif o[0] == "R":
+            if not it["stable"] or not (o[1] < len(sh.live) and sh.live[o[1]]):
+                return False
+            sh.remove(o[1])
+        elif o[0] == "P":
+            if not (o[1] < len(sh.live) and sh.live[o[1]]):
+                return False
+    return True
+
+
+def add_edges(r, sh, ops, style, ne):
+    ns = sh.nodes()
+    if len(ns) == 0:
+        return
+    for _ in range(ne):
+        a, b = r.choice(ns), r.choice(ns)
+        if style == "dag":
+            if a == b:
+                continue
+            a, b = min(a, b), max(a, b)
+        elif style == "rdag":      # edges from larger to smaller index
+            if a == b:
+                continue
+            a, b = max(a, b), min(a, b)
+        elif style == "multi" and sh.edges and r.chance(1, 2):
+            a, b = r.choice(sh.edges)      # a parallel edge
+        sh.edges.append((a, b))
+        ops.append(("E", a, b))
+
+
+def caps_case(r, tier):
+    stable = r.chance(1, 2)
+    style = r.choice(["dag", "dag", "rdag", "cyclic", "multi", "chain", "fan", "tournament", "layers"])
+    big = tier == "thorough" and r.chance(1, 4)
+    n = r.range(1, 60 if big else 24)
+    sh, ops = Shape(), []
+    for _ in range(n):
+        sh.add_node()
+        ops.append(("N",))
+    if style == "chain":
+        order = list(range(n))
+        if r.chance(1, 2):
+            order.reverse()
+        for a, b in zip(order, order[1:]):
+            sh.edges.append((a, b)); ops.append(("E", a, b))
+    elif style == "fan":
+        hub = r.below(n)
+        for a in range(n):
+            if a != hub or r.chance(1, 4):
+                for _ in range(1 + (1 if r.chance(1, 5) else 0)):
+                    sh.edges.append((a, hub)); ops.append(("E", a, hub))
+    elif style == "tournament":
+        n = min(n, 9)
+        es = [(a, b) for b in range(n) for a in range(b)]
+        if r.chance(1, 2):
+            es.reverse()
+        for a, b in es:
+            sh.edges.append((a, b)); ops.append(("E", a, b))
+    elif style == "layers":
+        w = r.range(1, 4)
+        for b in range(w, n):
+            for a in range(b - b % w - w, b - b % w):
+                if a >= 0 and r.chance(3, 4):
+                    sh.edges.append((a, b)); ops.append(("E", a, b))
+    else:
+        add_edges(r, sh, ops, style, r.range(0, 3 * n if not big else 2 * n))
+    if stable and r.chance(1, 2) and len(sh.nodes()) > 1:
+        for _ in range(r.range(1, 3)):
+            if len(sh.nodes()) > 1:
+                a = r.choice(sh.nodes())
+                sh.remove(a); ops.append(("R", a))
+    nn = max(1, len(sh.nodes()))
+    cap0 = r.choice([0, 0, 1, 2, 3, 4, 4, 5, 8, 16, nn, nn, nn + 1, 1 + len(sh.edges), nn + len(sh.edges) + 1, 64])
+    ncalls = r.range(2, 8)
+    changed = False
+    for c in range(ncalls):
+        ns = sh.nodes()
+        if not ns:
+            break
+        k = r.below(10)
+        if k == 0 and c > 0:           # the graph grows between calls
+            i = sh.add_node(); ops.append(("N",))
+            add_edges(r, sh, ops, "cyclic" if style in ("cyclic", "multi") else "dag", r.range(1, 4))
+            changed = True
+        elif k == 1 and c > 0 and stable and len(ns) > 1:
+            a = r.choice(ns)
+            sh.remove(a); ops.append(("R", a))
+            changed = True
+        ns = sh.nodes()
+        m = r.below(6)
+        if m == 0:
+            o = min(ns)
+        elif m == 1:
+            o = max(ns)
+        elif m == 2 and c > 0:
+            o = [x for x in ops if x[0] == "P"][-1][1]
+            o = o if o in ns else r.choice(ns)
+        else:
+            o = r.choice(ns)
+        ops.append(("P", o))
+    return dict(kind=style + ("+changes" if changed else ""), stable=stable, cap0=cap0, ops=ops)
+
+
+def caps_bitset_case(r):
+    """more than 128 nodes reached in two steps: the FixedBitSet block vectors (first allocation: 4 blocks =
+    128 bits) are reallocated by the reset of a later call"""
+    stable = r.chance(1, 2)
+    sh, ops = Shape(), []
+    n0 = r.range(60, 128)
+    for _ in range(n0):
+        sh.add_node(); ops.append(("N",))
+    add_edges(r, sh, ops, "dag", r.range(n0 // 2, n0))
+    ops.append(("P", r.choice(sh.nodes())))
+    ops.append(("P", max(sh.nodes())))
+    for _ in range(r.range(129 - n0, 200 - n0)):
+        sh.add_node(); ops.append(("N",))
+    add_edges(r, sh, ops, "dag", r.range(10, 60))
+    o = max(sh.nodes())
+    ops += [("P", o), ("P", o), ("P", r.choice(sh.nodes()))]
+    return dict(kind="bitset-regrow+changes", stable=stable, cap0=r.choice([0, 4, 64, 256]), ops=ops)
+
+
+def caps_corpus():
+    d = os.path.join(F.VERIF, "corpus", PROP)
+    items = []
+    if os.path.isdir(d):
+        for fn in sorted(os.listdir(d)):
+            if fn.endswith(".json"):
+                c = json.load(open(os.path.join(d, fn)))
+                c["ops"] = [tuple(o) for o in c["ops"]]
+                c["corpus_file"] = fn
+                items.append(caps_build(c))
+    return items
+
+
+def caps_cases(rng, tier):
+    items = caps_corpus()
+    nrand = 1500 if tier == "quick" else 4000
+    for i in range(nrand):
+        items.append(caps_build(caps_case(rng.fork(f"caps{i}"), tier)))
+    for i in range(8 if tier == "quick" else 40):
+        items.append(caps_build(caps_bitset_case(rng.fork(f"capsbits{i}"))))
+    return items
+
+
+def caps_stats(items, outl):
+    """classification of the observed traces (the model has already been compared with them)"""
+    st = {"cases": len(items), "process_calls": 0, "calls_that_grew_a_capacity": 0, "calls_with_heap_traffic": 0,
+          "frees": 0, "same_node_repeat_calls": 0, "same_node_repeat_calls_with_heap_traffic": 0,
+          "later_call_other_node_unchanged_graph_grew": 0, "cases_with_later_growth_on_unchanged_graph": 0,
+          "first_call_grew_stack_beyond_with_capacity_of_node_count": 0,
+          "style": {}, "cap0": {}, "container": {"Graph": 0, "StableGraph": 0}, "nodes": {}, "calls_per_case": {}}
+    nontrivial = set()
+    for it, o in zip(items, outl):
+        st["style"][it["kind"]] = st["style"].get(it["kind"], 0) + 1
+        c0 = it["cap0"]
+        ck = "0" if c0 == 0 else ("1-3" if c0 < 4 else ("4" if c0 == 4 else ("5-8" if c0 <= 8 else ("9-16" if c0 <= 16 else ">16"))))
+        st["cap0"][ck] = st["cap0"].get(ck, 0) + 1
+        st["container"]["StableGraph" if it["stable"] else "Graph"] += 1
+        nb = sum(1 for x in it["ops"] if x[0] == "N")
+        key = "<=4" if nb <= 4 else ("<=12" if nb <= 12 else ("<=24" if nb <= 24 else ">24"))
+        st["nodes"][key] = st["nodes"].get(key, 0) + 1
+        try:
+            obs = F.parse_obs_line(o)
+        except ValueError:
+            continue
+        calls = [x for x in it["ops"] if x[0] == "P"]
+        st["calls_per_case"][str(len(calls))] = st["calls_per_case"].get(str(len(calls)), 0) + 1
+        if len(obs) != len(calls):
+            continue
+        prev, prev_caps, changed_since, later = None, (it["cap0"], it["cap0"]), False, False
+        ci = 0
+        sh = Shape()
+        for x in it["ops"]:
+            if x[0] == "N":
+                sh.add_node()
+                changed_since = True
+            elif x[0] == "E":
+                sh.edges.append((x[1], x[2]))
+                changed_since = True
+            elif x[0] == "R":
+                sh.remove(x[1])
+                changed_since = True
+            else:
+                sc, ic, da, dd = obs[ci]
+                st["process_calls"] += 1
+                grew = (sc, ic) != prev_caps
+                st["calls_that_grew_a_capacity"] += 1 if grew else 0
+                st["calls_with_heap_traffic"] += 1 if da else 0
+                st["frees"] += dd
+                if ci == 0 and it["cap0"] == len(sh.nodes()) and sc > it["cap0"]:
+                    st["first_call_grew_stack_beyond_with_capacity_of_node_count"] += 1
+                if ci > 0 and not changed_since:
+                    if x[1] == prev:
+                        st["same_node_repeat_calls"] += 1
+                        st["same_node_repeat_calls_with_heap_traffic"] += 1 if da else 0
+                    elif grew:
+                        st["later_call_other_node_unchanged_graph_grew"] += 1
+                        later = True
+                prev, prev_caps, changed_since = x[1], (sc, ic), False
+                ci += 1
+        if later:
+            st["cases_with_later_growth_on_unchanged_graph"] += 1
+        if len({c[1] for c in calls}) >= 2 or "+changes" in it["kind"] or later:
+            nontrivial.add(it["line"])
+    return st, len(nontrivial)
+
+
+def caps_phase(rep, binpath, rng, tier):
+    items = caps_cases(rng, tier)
+    outl, bad, errors = F.correspond(binpath, items, HEADER, CHECK, "c07caps")
+    for name, msg in errors:
+        rep.violation("caps_correspondence_error_" + name.replace("/", "_"), {"kind": "capacity correspondence could not be evaluated", "where": name, "log": msg}, no_input=True)
+
+    def fails(c):
+        if not caps_valid(c):
+            return False
+        o, b, e = F.correspond(binpath, [c], HEADER, CHECK, "c07caps_shrink")
+        return bool(b) and not e
+
+    for idx in bad[:3]:
+        small = F.shrink_ops(items[idx], caps_build, fails, max_steps=40)
+        rc, out, _ = F.run_bin(binpath, [small["line"]])
+        _, model = F.coq_eval("c07caps", HEADER, f"run_case {small['coq']}")
+        rep.violation(f"caps_case{idx}", {
+            "kind": "model/implementation disagreement: the capacities or the heap traffic of a Processor::process call differ from the proved capacity model's prediction",
+            "case": {k: small[k] for k in ("kind", "stable", "cap0", "ops")}, "harness_line": small["line"],
+            "implementation_observations (per call: stack cap, inputs cap, allocs+reallocs, frees)": out,
+            "model_observations": model[-3000:], "original_case_index": idx,
+            "replay": "./check.py C07 --replay <this file>"})
+    if errors or len(outl) != len(items):
+        return items, [], {}, 0, bad
+    st, nontriv = caps_stats(items, outl)
+    # the two refuted readings must be reproduced on the crate by the corpus witnesses
+    for it, o in zip(items, outl):
+        if it.get("corpus_file") and it.get("expect"):
+            if F.parse_obs_line(o) != it["expect"]:
+                rep.violation("caps_witness_" + it["corpus_file"].replace(".json", ""), {
+                    "kind": "a recorded capacity witness no longer reproduces on the crate (the finding it documents may have been repaired: update corpus/C07 and the _refuted theorem)",
+                    "case": it["corpus_file"], "expected": it["expect"], "observed": o, "harness_line": it["line"]}, no_input=True)
+    return items, outl, st, nontriv, bad
 
 
 def verdict(name, k, v):
@@ -78,11 +376,23 @@ def verdict(name, k, v):
 
 
 def main(rep, tier, seed):
+    rng = F.Rng(seed)
     info = F.standard_proof_phase(rep, PROP)
     ok, blog, binpath = F.harness_build("c07")
     if not ok:
         rep.violation("harness_build", {"kind": "harness does not build against /repo", "log": blog[-4000:]}, no_input=True)
         return finish(rep, info, [], 0, tier)
+    citems, coutl, cstats, cnontriv, cbad = caps_phase(rep, binpath, rng.fork("caps"), tier)
+    rep.extra["capacity_correspondence"] = {
+        "what": "Alloc/CapsRun.v (capacity trace of the modelled process) evaluated by coqc vs Processor::verif_capacities() and the counting allocator, after every process call of a script",
+        "evaluations": len(coutl), "distinct_nontrivial": cnontriv, "disagreements": len(cbad),
+        "rule": "non-trivial = process calls from at least two different output nodes, or the graph changed between calls (node/edges added, node removed), or a call other than the first grew a capacity on an unchanged graph",
+        "input_distribution": cstats, "samples": [it["line"][:300] for it in citems[:2] + citems[-2:]]}
+    if cstats.get("later_call_other_node_unchanged_graph_grew"):
+        rep.notes.append(f"NOTE property=C07 reading 'from any node of a graph of that size' is false on the crate as on the model: "
+                         f"{cstats['later_call_other_node_unchanged_graph_grew']} later calls from another node of an unchanged graph grew a capacity "
+                         f"(c07_processor_any_node_refuted; not a violation of the checked reading 'same graph, same node': "
+                         f"{cstats['same_node_repeat_calls_with_heap_traffic']} of {cstats['same_node_repeat_calls']} repeated calls had heap traffic)")
     rc, out, err = F.run_bin(binpath, ["list"])
     names = out[0].split()
     missing = [n for n in ZERO if n not in names]
@@ -118,8 +428,9 @@ def finish(rep, info, results, nscen, tier):
         "checker_cmd": "make -f Makefile.coq props/C07.vo (coqc 8.16.1) + harness/target/debug/c07 under a counting GlobalAlloc",
         "trusted_base": F.TRUSTED_COMMON + ["axioms: none", "allocator observation covers only the enumerated scenarios"],
         "theorems": th,
-        "evaluations": len(results), "distinct_nontrivial": len({r[0].split()[0] for r in results}),
-        "rule": "one evaluation = one scenario x call count x seed; every scenario constructs its objects, makes one warm-up call and then K measured calls with inputs varied by iteration index and PRNG; distinct = distinct scenarios",
+        "evaluations": len(results) + rep.extra.get("capacity_correspondence", {}).get("evaluations", 0),
+        "distinct_nontrivial": len({r[0].split()[0] for r in results}) + rep.extra.get("capacity_correspondence", {}).get("distinct_nontrivial", 0),
+        "rule": "allocator scenarios: one evaluation = one scenario x call count x seed; every scenario constructs its objects, makes one warm-up call and then K measured calls with inputs varied by iteration index and PRNG; distinct = distinct scenarios; plus the capacity correspondence (see capacity_correspondence: its own counts and rule)",
         "samples": [f"{r[0]} -> {r[1]}" for r in results[:3] + results[-6:]],
     }
     return rep.finish("other", cov, ["allocation behaviour is observed, not proved", "Vec growth modelled as (len, cap) with doubling"])
@@ -128,6 +439,18 @@ def finish(rep, info, results, nscen, tier):
 def replay(path):
     j = json.load(open(path))
     ok, blog, binpath = F.harness_build("c07")
+    if "case" in j and isinstance(j["case"], dict) and "ops" in j["case"]:
+        c = j["case"]
+        c["ops"] = [tuple(o) for o in c["ops"]]
+        it = caps_build(c)
+        rc, out, _ = F.run_bin(binpath, [it["line"]])
+        _, model = F.coq_eval("c07caps", HEADER, f"run_case {it['coq']}")
+        print("case:", it["line"])
+        print("implementation:", out)
+        print("model:", model[-2000:])
+        o, bad, errs = F.correspond(binpath, [it], HEADER, CHECK, "c07caps_replay")
+        print("AGREE" if not bad and not errs else "DISAGREE")
+        return 1 if bad or errs else 0
     line = f"{j['scenario']} {j['calls']} {j['seed']}"
     rc, out, err = F.run_bin(binpath, [line])
     print(line, "->", out)
